@@ -312,7 +312,8 @@ func (a *Address) populateFromBytes(data []byte) error {
 	// Byron Addresses
 	if a.addressType == AddressTypeByron {
 		var rawAddr byronAddress
-		if _, err := cbor.Decode(data, &rawAddr); err != nil {
+		numBytesRead, err := cbor.Decode(data, &rawAddr)
+		if err != nil {
 			return err
 		}
 		payloadBytes, ok := rawAddr.Payload.Content.([]byte)
@@ -327,9 +328,24 @@ func (a *Address) populateFromBytes(data []byte) error {
 				"invalid Byron address data: checksum does not match",
 			)
 		}
+		// A Byron address is a single CBOR item and so is its payload; reject
+		// anything that follows either of them instead of silently dropping it
+		if numBytesRead != len(data) {
+			return fmt.Errorf(
+				"invalid Byron address data: %d unexpected trailing byte(s)",
+				len(data)-numBytesRead,
+			)
+		}
 		var byronAddr byronAddressPayload
-		if _, err := cbor.Decode(payloadBytes, &byronAddr); err != nil {
+		numBytesRead, err = cbor.Decode(payloadBytes, &byronAddr)
+		if err != nil {
 			return err
+		}
+		if numBytesRead != len(payloadBytes) {
+			return fmt.Errorf(
+				"invalid Byron address data: %d unexpected trailing byte(s) in payload",
+				len(payloadBytes)-numBytesRead,
+			)
 		}
 		if len(byronAddr.Hash) != AddressHashSize {
 			return errors.New(
